@@ -56,9 +56,10 @@ func (x *searcher) crashStates(pre *State, o buildOpts, prefix []int, tornAll bo
 		var pendData []byte
 		vos.OnWrite = func(path string, data []byte) { pendPath, pendData = path, append([]byte{}, data...) }
 		res = buildCtl(root, pre.V, o, ctlOpts{prefix: prefix, onEffect: func(idx int, desc string) {
-			e := effectRec{desc: strings.ReplaceAll(desc, root+"/", "")}
+			clean := filepath.Clean(root) + "/" // (some roots are spelled with a trailing separator)
+			e := effectRec{desc: strings.ReplaceAll(desc, clean, "")}
 			if strings.HasPrefix(desc, "write ") {
-				e.write, e.path = pendData, strings.TrimPrefix(pendPath, root+"/")
+				e.write, e.path = pendData, strings.TrimPrefix(pendPath, clean)
 			}
 			effects = append(effects, e)
 			snaps = append(snaps, readTree(root))
